@@ -307,3 +307,125 @@ Proof. exact @gen_entry_combine_eq. Qed.
 Print Assumptions C16_gen_entry_combine_eq.
 
 Example C16_gen_entry_example := gen_entry_example.
+
+(** * Tie to the source by translation: Table / TableProxy / EntryProxy (Gen/TableGen.v)
+
+    The table classes of utils/dynamic_programming.py (dictionary dimensions) are regenerated on every run and proved
+    to read and update like the table model of Model/Entry.v. *)
+
+From SR Require Import Gen.TableGen Proofs.TableGenProofs.
+
+Theorem C16_gen_table_init_model :
+  forall (A : Type) (d : list G.DictDimension) (mp : G.EntryGen.MergePolicy)
+         (rp : G.EntryGen.RetentionPolicy),
+       exists t : G.table_state nat A,
+         G.gen_table_init d mp rp = G.Ok t /\
+         G.table_merge_policy t = mp /\
+         G.table_retention_policy t = rp /\ G.table_dimensions t = d /\ twf t /\ rep t [].
+Proof. exact @gen_table_init_model. Qed.
+Print Assumptions C16_gen_table_init_model.
+
+Theorem C16_table_read_model :
+  forall (A : Type) (t : G.table_state nat A) (m : table) (ks : list nat),
+       twf t ->
+       rep t m ->
+       ks <> [] ->
+       length ks = length (G.table_dimensions t) ->
+       exists t1 : G.table_state nat A,
+         table_at Nat.eqb t ks =
+         G.Ok (G.Proxy_EntryProxy {| G.eproxy__parent := t1; G.eproxy__key := ks |}) /\
+         twf t1 /\
+         rep t1 m /\
+         (exists t2 : G.table_state nat A,
+            G.gen_Proxy_value Nat.eqb
+              (G.Proxy_EntryProxy {| G.eproxy__parent := t1; G.eproxy__key := ks |}) =
+            G.Ok
+              (G.Proxy_EntryProxy {| G.eproxy__parent := t2; G.eproxy__key := ks |},
+               val (read (cmp (G.table_merge_policy t)) m ks)) /\ twf t2 /\ rep t2 m) /\
+         (exists t2 : G.table_state nat A,
+            G.gen_Proxy_infos Nat.eqb
+              (G.Proxy_EntryProxy {| G.eproxy__parent := t1; G.eproxy__key := ks |}) =
+            G.Ok
+              (G.Proxy_EntryProxy {| G.eproxy__parent := t2; G.eproxy__key := ks |},
+               tags (read (cmp (G.table_merge_policy t)) m ks)) /\ twf t2 /\ rep t2 m) /\
+         (exists t2 : G.table_state nat A,
+            G.gen_Proxy_is_infinite Nat.eqb
+              (G.Proxy_EntryProxy {| G.eproxy__parent := t1; G.eproxy__key := ks |}) =
+            G.Ok
+              (G.Proxy_EntryProxy {| G.eproxy__parent := t2; G.eproxy__key := ks |},
+               ext_is_inf (val (read (cmp (G.table_merge_policy t)) m ks))) /\ 
+            twf t2 /\ rep t2 m).
+Proof. exact @table_read_model. Qed.
+Print Assumptions C16_table_read_model.
+
+Theorem C16_table_update_model :
+  forall (A : Type) (eqb : A -> A -> bool) (t : G.table_state nat A) 
+         (m : table) (pre : list nat) (k : nat) (cs : list (G.EntryGen.Candidate A)),
+       twf t ->
+       rep t m ->
+       S (length pre) = length (G.table_dimensions t) ->
+       exists t1 t2 : G.table_state nat A,
+         table_at Nat.eqb t (pre ++ [k]) =
+         G.Ok (G.Proxy_EntryProxy {| G.eproxy__parent := t1; G.eproxy__key := pre ++ [k] |}) /\
+         G.gen_Proxy_update Nat.eqb eqb
+           (G.Proxy_EntryProxy {| G.eproxy__parent := t1; G.eproxy__key := pre ++ [k] |}) cs =
+         G.Ok (G.Proxy_EntryProxy {| G.eproxy__parent := t2; G.eproxy__key := pre ++ [k] |}, tt) /\
+         G.table_merge_policy t2 = G.table_merge_policy t /\
+         G.table_retention_policy t2 = G.table_retention_policy t /\
+         G.table_dimensions t2 = G.table_dimensions t /\
+         twf t2 /\
+         rep t2
+           (write eqb (cmp (G.table_merge_policy t)) (crp (G.table_retention_policy t)) m
+              (pre ++ [k]) (map ccand cs)).
+Proof. exact @table_update_model. Qed.
+Print Assumptions C16_table_update_model.
+
+Theorem C16_gen_eproxy_combine_eq :
+  forall (K A U : Type) (keqb : K -> K -> bool) (eqb2 : U -> U -> bool),
+       (forall a b : K, reflect (a = b) (keqb a b)) ->
+       forall (t : G.table_state K A) (ks : list K) (o : EG.entry_state A)
+         (comb : G.EntryGen.Candidate A -> G.EntryGen.Candidate A -> G.EntryGen.Candidate U),
+       twf t ->
+       length ks = length (G.table_dimensions t) ->
+       G.gen_eproxy_combine keqb eqb2 {| G.eproxy__parent := t; G.eproxy__key := ks |} o comb =
+       G.Ok
+         ({| G.eproxy__parent := walked keqb t ks; G.eproxy__key := ks |},
+          match tlookup keqb t ks with
+          | Some e =>
+              G.Combined_Entry2
+                (mk (EG.entry__merge_policy e) (EG.entry__retention_policy e)
+                   (combine eqb2 (cmp (EG.entry__merge_policy e))
+                      (crp (EG.entry__retention_policy e)) (ent e) (ent o)
+                      (comb_f comb (val (ent e)) (val (ent o)))))
+          | None =>
+              G.Combined_EntryProxy {| G.eproxy__parent := walked keqb t ks; G.eproxy__key := ks |}
+          end).
+Proof. exact @gen_eproxy_combine_eq. Qed.
+Print Assumptions C16_gen_eproxy_combine_eq.
+
+Theorem C16_gen_entry_iter_eq :
+  forall (A : Type) (s : EG.entry_state A),
+       G.gen_entry_iter s =
+       G.Ok
+         (s,
+          map
+            (fun i : A =>
+             {| EG.Candidate_value := EG.entry__value s; EG.Candidate_info := Some i |})
+            (EG.entry__infos s)).
+Proof. exact @gen_entry_iter_eq. Qed.
+Print Assumptions C16_gen_entry_iter_eq.
+
+Theorem C16_table_at_ok :
+  forall (K A : Type) (keqb : K -> K -> bool),
+       (forall a b : K, reflect (a = b) (keqb a b)) ->
+       forall (t : G.table_state K A) (ks : list K),
+       twf t ->
+       ks <> [] ->
+       length ks = length (G.table_dimensions t) ->
+       exists t' : G.table_state K A,
+         table_at keqb t ks =
+         G.Ok (G.Proxy_EntryProxy {| G.eproxy__parent := t'; G.eproxy__key := ks |}) /\
+         tsame keqb t t'.
+Proof. exact @table_at_ok. Qed.
+Print Assumptions C16_table_at_ok.
+
